@@ -60,6 +60,8 @@ var spyEmitters = []emitter{
 	{2, [32]byte{0xaa, 2}},
 	{255, [32]byte{0xaa, 1}},
 	{4, [32]byte{0xbb}},
+	// never named by a filter (the filter mask covers the four above): the zero values of both fields
+	{0, [32]byte{}},
 }
 
 func spyVAA(e int, seq int64) []byte {
